@@ -167,6 +167,8 @@ func checkC11(c *Check) {
 		c.Cond(ok, "1/canceller", "container.waitForDone:ctx-arm", p.Pos(wd.Pos()), "cancellation sends kill and then collects the result", "the host's wait has no context arm that sends kill and then receives the result: a cancelled Execve keeps waiting for the program")
 	}
 	if hs := p.Func("container", "containerServer.handleExecveStarted"); hs != nil {
+		// on every path on which the started-state select took the "command received" arm, kill(-1, SIGKILL) is
+		// issued before the function returns (whatever the shape: inside the arm, or after the select under a flag)
 		ok := false
 		for _, b := range hs.Blocks {
 			for _, in := range b.Instrs {
@@ -174,21 +176,37 @@ func checkC11(c *Check) {
 				if !isSel {
 					continue
 				}
-				for k, st := range sel.States {
-					if !strings.HasSuffix(describe(st.Chan), ".recvCh") {
+				for k, stt := range sel.States {
+					if !strings.HasSuffix(describe(stt.Chan), ".recvCh") {
 						continue
 					}
-					arm := fmt.Sprintf("%s#0 == %d", describe(sel), k)
-					for _, ci := range callInstrs(hs) {
-						if n, _ := calleeOf(ci); n == "syscall.Kill" {
-							pid, ok1 := constInt(ci.Common().Args[0])
-							s, ok2 := constInt(ci.Common().Args[1])
-							g := controlDeps(hs).guardOf(ci.Block())
-							if v, _, _ := Valid(fImp(g, fLit(arm))); v && len(Support(g)) > 0 && ok1 && pid == -1 && ok2 && s == sigkill {
-								ok = true
+					rets, bad := 0, 0
+					w := &walker{fn: hs, Inline: -1, MaxVisits: 3}
+					w.Seed = func(w *walker, st *wstate, v ssa.Value) *absVal {
+						if ex, isE := v.(*ssa.Extract); isE && ex.Tuple == ssa.Value(sel) && ex.Index == 0 {
+							return avInt(int64(k))
+						}
+						return nil
+					}
+					w.OnInstr = func(w *walker, st *wstate, in2 ssa.Instruction) {
+						if ci, isC := in2.(ssa.CallInstruction); isC {
+							if n, _ := calleeOf(ci); n == "syscall.Kill" {
+								pid, ok1 := constInt(ci.Common().Args[0])
+								sg, ok2 := constInt(ci.Common().Args[1])
+								if ok1 && pid == -1 && ok2 && sg == sigkill {
+									st.note("killed-all")
+								}
 							}
 						}
 					}
+					w.OnReturn = func(w *walker, st *wstate, ret *ssa.Return, rs []*absVal) {
+						rets++
+						if !st.noted("killed-all") {
+							bad++
+						}
+					}
+					w.Run()
+					ok = rets > 0 && bad == 0 && !w.Truncated
 				}
 			}
 		}
@@ -331,25 +349,31 @@ func checkC11(c *Check) {
 
 	// ---------- 5: Destroy ----------
 	if ds := p.Func("container", "container.Destroy"); ds != nil {
-		var cl, lk, kl, wt ssa.CallInstruction
-		for _, ci := range callInstrs(ds) {
+		// the four steps, in Destroy itself or in a helper of the package it calls (flattened program order)
+		var cl, lk, kl, wt *evRef
+		evs := flattenCalls(ds, 2, func(ci ssa.CallInstruction) bool {
+			n, _ := calleeOf(ci)
+			return strings.HasSuffix(n, ").Close") || n == "(sync.Mutex).Lock" || n == "(os.Process).Kill" || n == "(os.Process).Wait"
+		})
+		for i := range evs {
+			ci := evs[i].call()
 			n, _ := calleeOf(ci)
 			a := ""
 			if len(ci.Common().Args) > 0 {
 				a = describe(ci.Common().Args[0])
 			}
 			switch {
-			case strings.HasSuffix(n, ").Close") && strings.Contains(a, ".socket"):
-				cl = ci
-			case n == "(sync.Mutex).Lock":
-				lk = ci
+			case strings.HasSuffix(n, ").Close") && strings.Contains(a, ".socket") && cl == nil:
+				cl = &evs[i]
+			case n == "(sync.Mutex).Lock" && lk == nil:
+				lk = &evs[i]
 			case n == "(os.Process).Kill":
-				kl = ci
+				kl = &evs[i]
 			case n == "(os.Process).Wait":
-				wt = ci
+				wt = &evs[i]
 			}
 		}
-		ok := cl != nil && lk != nil && kl != nil && wt != nil && before(cl, lk) && before(lk, kl) && before(kl, wt)
+		ok := cl != nil && lk != nil && kl != nil && wt != nil && evBefore(*cl, *lk) && evBefore(*lk, *kl) && evBefore(*kl, *wt)
 		c.Cond(ok, "5/destroy", "container.Destroy:order", p.Pos(ds.Pos()), "socket.Close < mu.Lock < process.Kill < process.Wait", "Destroy does not close the socket before taking the mutex (an in-flight call is then waited for instead of aborted) or does not kill before waiting")
 	}
 	// every blocking operation of the host methods observes done
@@ -433,7 +457,7 @@ func checkC11(c *Check) {
 
 	// a cancelled run comes back: the container's handler and its wait goroutine cannot block on each other (C10.9)
 	importObs(c, "C10", "C10.9/no-circular-wait", "6/cancel-returns", nil)
-	c.Expect("6/cancel-returns", 3)
+	c.Expect("6/cancel-returns", 2)
 }
 
 // describeCmdKind renders the constant Cmd field of a cmd literal passed by value.
